@@ -460,6 +460,13 @@ def rule_delegate(X, R, rule="R20-delegate"):
             R.cannot(rule, name, "extern function not found")
             continue
         cs = list(calls(h["body"], rx))
+        if not cs:
+            # the engine call may sit in a private helper of the same file
+            import sem
+            Sd = sem.Sem(X, h)
+            rx_ = re.compile(rx)
+            cs = [x.node for x in Sd.sites() if x.node.get("k") in ("Call", "MethodCall") and x.frame is not Sd.root and
+                  any(c_ and rx_.search(norm(c_)) for c_ in (x.node.get("callee"), x.node.get("resolved")))]
         R.check(len(cs) == 1, rule, name, "delegates to the engine call of the same role exactly once",
                 "found %d calls matching %s" % (len(cs), rx), h["span"])
         if len(cs) != 1:
